@@ -643,6 +643,8 @@ impl<'a> Printer<'a> {
                 let _ = write!(self.out, ".{m}");
                 self.args(args);
             }
+            // `{}` in expression position would be read as an empty record
+            Expr::Block(b) if b.stmts.is_empty() && b.tail.is_none() => self.out.push_str("()"),
             Expr::If(..) | Expr::Match(..) | Expr::Block(_) | Expr::While(..) | Expr::For(..) => {
                 let need = ctx > 0;
                 if need {
@@ -723,9 +725,17 @@ impl<'a> Printer<'a> {
                     match p {
                         FPart::Text(t) => self.out.push_str(&escape_fstr(t)),
                         FPart::Expr(e) => {
-                            self.out.push('{');
-                            self.expr(e, 0);
-                            self.out.push('}');
+                            // `{{` / `}}` are brace escapes: keep braces of the
+                            // expression away from the interpolation braces
+                            let mut sub = Printer::new(self.prog, self.parens);
+                            sub.ind = self.ind;
+                            sub.expr(e, 0);
+                            let t = sub.out;
+                            if t.starts_with('{') || t.ends_with('}') {
+                                let _ = write!(self.out, "{{({t})}}");
+                            } else {
+                                let _ = write!(self.out, "{{{t}}}");
+                            }
                         }
                     }
                 }
